@@ -889,6 +889,81 @@ fn main() {
     );
 
     // ------------------------------------------------------------------ guards and summary
+    // ------------------------------------------------------------------ component recursion through includes
+    // The include relation of these sets is acyclic (they are accepted), but a component whose body
+    // includes a template that calls the component again recurses at render time; the only thing
+    // that stops it is the component nesting limit, which therefore has to survive `include`
+    // (seeded change C11-2 reset it at every include). Hand-written shapes x where the recursive
+    // call sits; every render must come back with text or an error.
+    let rec_shapes: Vec<(&str, Vec<(&str, String)>)> = {
+        let mut v: Vec<(&str, Vec<(&str, String)>)> = vec![];
+        let call_sites: [(&str, &str); 4] = [
+            ("top", "{{ <card /> }}"),
+            ("if", "{% if true %}{{ <card /> }}{% endif %}"),
+            ("loop", "{% for i in [1] %}{{ <card /> }}{% endfor %}"),
+            ("capture", "{% filter upper %}{{ <card /> }}{% endfilter %}"),
+        ];
+        for (site, call) in call_sites {
+            v.push((site, vec![("widgets", "{% component card() %}[{% include \"page\" %}]{% endcomponent card %}".to_string()), ("page", format!("p{call}"))]));
+            v.push((site, vec![
+                ("widgets", "{% component card() %}[{% include \"mid\" %}]{% endcomponent card %}".to_string()),
+                ("mid", "m{% include \"page\" %}".to_string()),
+                ("page", format!("p{call}")),
+            ]));
+            v.push((site, vec![
+                ("widgets", "{% component card() %}[{% include \"page\" %}]{% endcomponent card %}".to_string()),
+                ("base", "b{% block main %}x{% endblock %}".to_string()),
+                ("page", format!("{{% extends \"base\" %}}{{% block main %}}{call}{{% endblock %}}")),
+            ]));
+            v.push((site, vec![
+                ("widgets", "{% component card() %}[{{ body }}]{% endcomponent card %}{% component outer() %}{% <card> %}{% include \"page\" %}{% </card> %}{% endcomponent outer %}".to_string()),
+                ("page", format!("p{}", call.replace("card", "outer"))),
+            ]));
+        }
+        v
+    };
+    run.family(
+        Family::new(
+            "component-recursion-through-include",
+            rec_shapes.len() as u64,
+            "16 accepted sets in which a component's body (directly, through a second include, through an extending template, through a call body) includes a template that calls the component again from top level / if / loop / capture: rendering every template and the component through the API must return text or an error",
+        )
+        .timeout(30.0)
+        .describe(|i| json!({"templates": rec_shapes[i as usize].1, "call_site": rec_shapes[i as usize].0}))
+        .crash_signature(|_, kind| {
+            let what = if kind == "hang" { "hang" } else { "overflow" };
+            format!("accepted-graph-render-{what}:component-recursion-through-include")
+        }),
+        |item, acc: &mut Acc| {
+            let (site, tpls) = &rec_shapes[item as usize];
+            let case = || json!({"templates": tpls, "call_site": site});
+            let mut t = tera::Tera::default();
+            let add = mccore::engine::add_templates(&mut t, &tpls.iter().map(|(n, s)| (n.to_string(), s.clone())).collect::<Vec<_>>());
+            acc.count("adds", 1);
+            if !add.is_ok() {
+                // not accepted: nothing to render (a stricter registration check is allowed)
+                acc.case(true, "rejected");
+                return;
+            }
+            let ctx = tera::Context::new();
+            for (name, _) in tpls.iter() {
+                let r = mccore::engine::render(&t, name, &ctx);
+                acc.count("renders", 1);
+                if let mccore::Out::Panic(p) = &r {
+                    acc.violation("panic:component-recursion-through-include", format!("render({name}) panicked: {p}"), case);
+                }
+                acc.case(true, if r.is_err() { "render-ended-in-error" } else { r.class() });
+            }
+            for comp in ["card", "outer"] {
+                let r = mccore::engine::to_out(mccore::engine::guarded(|| t.render_component(comp, &ctx, None, true)));
+                acc.count("renders", 1);
+                if let mccore::Out::Panic(p) = &r {
+                    acc.violation("panic:component-recursion-through-include", format!("render_component({comp}) panicked: {p}"), case);
+                }
+            }
+        },
+    );
+
     if run.is_supervisor() {
         let graphs = run.counter("graphs");
         let adds = run.counter("adds");
